@@ -123,8 +123,11 @@ def Deme.allInds (d : Deme) : List Ind := d.gens.flatMap (·.inds)
 def Deme.curPop (d : Deme) : List Ind := (d.gens.getLast?.map (·.inds)).getD []
 def Deme.metaepochs (d : Deme) : Nat := d.hist.length - 1
 
-/-- demes in `levels` order (level-major) -/
-def T.levelMajor (t : T) : List Deme := t.levels.flatMap fun ids => ids.filterMap t.find
+/-- demes level by level, creation order inside a level — the order of `tree.levels`
+(the explicit `levels` registration is kept too: `_next_child_id` reads its lengths and
+the correspondence check compares it with the real one) -/
+def T.levelMajor (t : T) : List Deme :=
+  (List.range t.height).flatMap fun l => t.demes.filter (·.level == l)
 def T.activeAt (t : T) (l : Nat) : Nat := (t.demes.filter fun d => d.level == l && d.active).length
 def T.nEvals (t : T) : Nat := (t.demes.map (·.counter)).sum
 def T.levelEvals (t : T) (l : Nat) : Nat := ((t.demes.filter (·.level == l)).map (·.counter)).sum
@@ -176,22 +179,25 @@ def inBox (box : List (Rat × Rat)) (x : List Rat) : Bool :=
 /-- one `problem.evaluate(x)` issued by deme `id` at level `lvl`: the deme's own counting
 wrapper, then the level's (possibly shared) wrapper stack, then — if no cutoff refuses —
 the objective.  Returns the fitness the deme stores. -/
+def evalReqCore (t : T) (id : Id) (lvl : Nat) (counts : Bool) (r : Req) (lc : LevelCfg)
+    (res : List Problem.Wrapper × Fit × Bool) : Except String (T × Ind) :=
+  if res.2.2 != r.v.isSome then
+    .error (if res.2.2 then s!"request by {showId id} was not forwarded to the objective although no cutoff is exhausted"
+            else s!"objective invoked by {showId id} although an evaluation cutoff is exhausted")
+  else
+    let t1 := { t with stacks := t.stacks.set lc.stack res.1 }
+    let t2 := if counts then t1.update id fun d => { d with counter := d.counter + 1 } else t1
+    let t3 := if res.2.2 then { t2 with log := t2.log ++ [⟨lvl, id, r.x, res.2.1⟩] }
+              else { t2 with refused := true }
+    .ok (t3, ⟨r.x, res.2.1⟩)
+
 def evalReq (t : T) (id : Id) (lvl : Nat) (counts : Bool) (r : Req) : Except String (T × Ind) :=
   match t.cfg.levels[lvl]? with
   | none => .error s!"no level {lvl}"
   | some lc =>
     if !inBox lc.box r.x && r.v.isSome then .error s!"objective invoked outside the box by {showId id}" else
-    let st := t.stacks.getD lc.stack []
-    let res := Problem.evalStack t.cfg.maximize st (r.v.getD (Fit.sentinel t.cfg.maximize))
-    if res.2.2 != r.v.isSome then
-      .error (if res.2.2 then s!"request by {showId id} was not forwarded to the objective although no cutoff is exhausted"
-              else s!"objective invoked by {showId id} although an evaluation cutoff is exhausted")
-    else
-      let t1 := { t with stacks := t.stacks.set lc.stack res.1 }
-      let t2 := if counts then t1.update id fun d => { d with counter := d.counter + 1 } else t1
-      let t3 := if res.2.2 then { t2 with log := t2.log ++ [⟨lvl, id, r.x, res.2.1⟩] }
-                else { t2 with refused := true }
-      .ok (t3, ⟨r.x, res.2.1⟩)
+    evalReqCore t id lvl counts r lc
+      (Problem.evalStack t.cfg.maximize (t.stacks.getD lc.stack []) (r.v.getD (Fit.sentinel t.cfg.maximize)))
 
 def evalReqs (t : T) (id : Id) (lvl : Nat) (counts : Bool) : List Req → Except String (T × List Ind)
   | [] => .ok (t, [])
@@ -240,40 +246,50 @@ deriving Repr
 def nextChildId (t : T) (parent : Deme) : Id :=
   parent.id ++ [(t.levels.getD (parent.level + 1) []).length]
 
-/-- `init_from_config` + registration (`add_child`, `levels[target].append`) -/
-def createDeme (t : T) (parent : Option Deme) (seed : Option Ind) (env : NewEnv) : Except String T := do
-  let lvl := match parent with | some p => p.level + 1 | none => 0
-  let id : Id := match parent with | some p => nextChildId t p | none => []
-  let lc ← match t.cfg.levels[lvl]? with
-    | some lc => pure lc
-    | none => throw s!"sprout below the last level ({showId id})"
-  let d0 : Deme := { id := id, level := lvl, parent := parent.map (·.id), startedAt := t.metaepoch,
-                     active := true, hib := false, hist := [], counter := 0, children := [], seed := seed }
-  let t0 := { t with demes := t.demes ++ [d0],
-                     levels := t.levels.set lvl ((t.levels.getD lvl []) ++ [id]) }
-  let t0 := match parent with
-    | some p => t0.update p.id fun d => { d with children := d.children ++ [id] }
-    | none => t0
-  let (t1, ev0) ← evalReqs t0 id lvl (lc.engine != .localOpt) env.reqs
-  -- individuals whose request was refused by an exhausted cutoff carry the sentinel
-  let refusedHere := ev0.any fun e => e.genome.isEmpty && e.fit == Fit.sentinel t.cfg.maximize
-  let ev := ev0 ++ (if refusedHere then env.pop.filter (fun i => i.fit == Fit.sentinel t.cfg.maximize) else [])
-  -- what the initial population must look like
+/-- what the initial population of a new deme must look like -/
+def initPopOk (mx : Bool) (lc : LevelCfg) (seed : Option Ind) (env : NewEnv) (ev : List Ind) : Except String Unit :=
   match lc.engine, seed with
   | .localOpt, some s =>
-    if env.pop != [s] || !env.reqs.isEmpty then throw s!"local deme {showId id} must start from its seed without evaluating"
-  | .localOpt, none => throw "local deme without seed"
-  | .cma, none => throw "CMA deme without seed"
+    if env.pop != [s] || !env.reqs.isEmpty then .error "a local deme must start from its seed without evaluating" else .ok ()
+  | .localOpt, none => .error "local deme without seed"
+  | .cma, none => .error "CMA deme without seed"
   | .cma, some _ | .lhs, _ | .sobol, _ =>
-    if !(env.pop.all ev.contains) then throw s!"initial population of {showId id} contains an unevaluated individual"
+    if !(env.pop.all ev.contains) then .error "initial population contains an unevaluated individual" else .ok ()
   | _, none =>
     if env.pop.length != lc.popSize || !(env.pop.all ev.contains) then
-      throw s!"root population of {showId id}: wrong size or unevaluated individual"
+      .error "root population: wrong size or unevaluated individual" else .ok ()
   | _, some s =>
-    if env.pop.length != lc.popSize then throw s!"initial population of {showId id} has {env.pop.length} members, configured {lc.popSize}"
-    if !(env.pop.all ev.contains) then throw s!"initial population of {showId id} contains an unevaluated individual"
-    if !(env.pop.any fun i => i.genome == s.genome) then throw s!"initial population of {showId id} does not contain its seed"
-  pure (t1.update id fun d => { d with hist := [[⟨env.pop, ev⟩]] })
+    if env.pop.length != lc.popSize then .error s!"initial population has {env.pop.length} members, configured {lc.popSize}"
+    else if !(env.pop.all ev.contains) then .error "initial population contains an unevaluated individual"
+    else if !(env.pop.any fun i => i.genome == s.genome) then .error "initial population does not contain its seed"
+    else .ok ()
+
+/-- `init_from_config` + registration (`add_child`, `levels[target].append`).  The new
+deme owns its counting wrapper: its counter starts at the number of requests it issued
+while building its initial population (a local deme issues none). -/
+def createDeme (t : T) (parent : Option Deme) (seed : Option Ind) (env : NewEnv) : Except String T :=
+  let lvl := match parent with | some p => p.level + 1 | none => 0
+  let id : Id := match parent with | some p => nextChildId t p | none => []
+  match t.cfg.levels[lvl]? with
+  | none => .error s!"sprout below the last level ({showId id})"
+  | some lc =>
+    match evalReqs t id lvl false env.reqs with
+    | .error e => .error e
+    | .ok (t1, ev0) =>
+      -- individuals whose request was refused by an exhausted cutoff carry the sentinel
+      let refusedHere := ev0.any fun e => e.genome.isEmpty && e.fit == Fit.sentinel t.cfg.maximize
+      let ev := ev0 ++ (if refusedHere then env.pop.filter (fun i => i.fit == Fit.sentinel t.cfg.maximize) else [])
+      match initPopOk t.cfg.maximize lc seed env ev with
+      | .error e => .error s!"deme {showId id}: {e}"
+      | .ok _ =>
+        let d : Deme := { id := id, level := lvl, parent := parent.map (·.id), startedAt := t.metaepoch,
+                          active := true, hib := false, hist := [[⟨env.pop, ev⟩]],
+                          counter := if lc.engine == .localOpt then 0 else env.reqs.length,
+                          children := [], seed := seed }
+        let old := match parent with
+          | some p => updFirst p.id (fun x => { x with children := x.children ++ [id] }) t1.demes
+          | none => t1.demes
+        .ok { t1 with demes := old ++ [d], levels := t1.levels.set lvl ((t1.levels.getD lvl []) ++ [id]) }
 
 def init (cfg : Cfg) (stacks : List (List Problem.Wrapper)) (rootEnv : NewEnv) : Except String T :=
   createDeme { cfg := cfg, metaepoch := 0, demes := [], levels := cfg.levels.map fun _ => [],
@@ -284,7 +300,7 @@ def init (cfg : Cfg) (stacks : List (List Problem.Wrapper)) (rootEnv : NewEnv) :
 def view (t : T) : Sprout.View :=
   { height := t.height, metaepoch := t.metaepoch, maximize := t.cfg.maximize,
     demes := t.levelMajor.map fun d =>
-      { id := showId d.id, level := d.level, active := d.active, children := d.children.map showId, seed := d.seed,
+      { id := d.id, level := d.level, active := d.active, children := d.children, seed := d.seed,
         pop := d.curPop, histBest := best t.cfg.maximize d.allInds, startedAt := d.startedAt,
         histLen := d.hist.length } }
 
@@ -321,95 +337,145 @@ inductive Ev
 def appendHist (t : T) (id : Id) (gens : List Gen) (active : Bool) : T :=
   t.update id fun d => { d with hist := d.hist ++ [gens], active := d.active && active }
 
-def step (t : T) : Ev → Except String T
-  | .loop ge =>
-    match t.pc with
-    | .head =>
-      match gscEval t ge t.cfg.gsc with
-      | none => .error "no verdict for the global stop condition"
-      | some true => .ok { t with pc := .done, gscSeen := true }
-      | some false =>
-        let t1 := { t with metaepoch := t.metaepoch + 1 }
-        .ok { t1 with pc := finish (schedule t1) }
-    | _ => .error "loop-head consult at the wrong moment"
-  | .gen id g lscEnv =>
-    match t.pc with
-    | .running queue cur => do
-      let (q, done, pending) ← match cur, queue with
-        | some (cid, done, pending), q =>
-          if cid == id then pure (q, done, pending) else throw s!"deme {showId id} produced a generation while {showId cid} is running"
-        | none, qid :: q =>
-          if qid == id then pure (q, 0, []) else throw s!"deme {showId id} runs, but {showId qid} is next in the schedule"
-        | none, [] => throw "generation after the metaepoch ended"
-      let d ← match t.find id with | some d => pure d | none => throw s!"unknown deme {showId id}"
-      let lc ← match t.cfg.levels[d.level]? with | some lc => pure lc | none => throw "no level"
-      if lc.engine == .localOpt then throw "local deme produced a generation"
-      if !d.active then throw s!"inactive deme {showId id} runs"
-      if t.gscSeen && done > 0 then throw s!"deme {showId id} performs another generation after the global stop condition held"
-      let parents := match pending.getLast? with | some p => p.inds | none => d.curPop
-      let (t1, ev) ← evalReqs t id d.level true g.reqs
+def stepLoop (t : T) (ge : Option Bool) : Except String T :=
+  match t.pc with
+  | .head =>
+    match gscEval t ge t.cfg.gsc with
+    | none => .error "no verdict for the global stop condition"
+    | some true => .ok { t with pc := .done, gscSeen := true }
+    | some false =>
+      if t.gscSeen then .error "the global stop condition was true and is false again" else
+      let t1 := { t with metaepoch := t.metaepoch + 1 }
+      .ok { t1 with pc := finish (schedule t1) }
+  | _ => .error "loop-head consult at the wrong moment"
+
+/-- who may produce a generation now: the running deme, or the next one in the schedule -/
+def prepareGen (t : T) (id : Id) : Except String (List Id × Nat × List Gen × Deme × LevelCfg) :=
+  match t.pc with
+  | .running queue cur =>
+    match (match cur, queue with
+      | some (cid, done, pending), q =>
+        if cid == id then Except.ok (q, done, pending)
+        else .error s!"deme {showId id} produced a generation while {showId cid} is running"
+      | none, qid :: q =>
+        if qid == id then .ok (q, 0, []) else .error s!"deme {showId id} runs, but {showId qid} is next in the schedule"
+      | none, [] => .error "generation after the metaepoch ended") with
+    | .error e => .error e
+    | .ok (q, done, pending) =>
+      match t.find id with
+      | none => .error s!"unknown deme {showId id}"
+      | some d =>
+        match t.cfg.levels[d.level]? with
+        | none => .error "no level"
+        | some lc =>
+          if lc.engine == .localOpt then .error "local deme produced a generation"
+          else if !d.active then .error s!"inactive deme {showId id} runs"
+          else if t.gscSeen && done > 0 then
+            .error s!"deme {showId id} performs another generation after the global stop condition held"
+          else .ok (q, done, pending, d, lc)
+  | _ => .error s!"deme {showId id} runs outside run_metaepoch"
+
+/-- the consults after a generation and their consequences (`t1` = state after the evaluations) -/
+def finishGen (t1 : T) (id : Id) (lc : LevelCfg) (q : List Id) (done : Nat) (pending : List Gen) (gen : Gen)
+    (g : GenEnv) (lscEnv : Option Bool) : Except String T :=
+  if lc.engine == .lhs || lc.engine == .sobol then
+    -- `run()` appends its population as a metaepoch of its own, then `gsc or lsc`
+    let t2 := appendHist t1 id [gen] true
+    match gscEval t2 g.gscEnv t2.cfg.gsc with
+    | none => .error "no GSC verdict"
+    | some gv =>
+      match t2.find id with
+      | none => .error "lost deme"
+      | some d2 =>
+        match (if gv then some false else lscEval t2 d2 lscEnv lc.lsc) with
+        | none => .error "no LSC verdict"
+        | some lv =>
+          let t3 := t2.update id fun d => { d with active := d.active && !(gv || lv) }
+          .ok { t3 with pc := finish q, gscSeen := t3.gscSeen || gv }
+  else
+    -- the running metaepoch's generations are appended to the history at its end
+    match gscEval t1 g.gscEnv t1.cfg.gsc with
+    | none => .error "no GSC verdict"
+    | some gv =>
+      let selfStop := lc.engine == .cma && g.cmaStop
+      if gv || selfStop then
+        let t2 := appendHist t1 id (pending ++ [gen]) false
+        .ok { t2 with pc := finish q, gscSeen := t2.gscSeen || gv }
+      else if done + 1 < lc.generations then
+        .ok { t1 with pc := .running q (some (id, done + 1, pending ++ [gen])) }
+      else
+        let t2 := appendHist t1 id (pending ++ [gen]) true
+        match t2.find id with
+        | none => .error "lost deme"
+        | some d2 =>
+          match lscEval t2 d2 lscEnv lc.lsc with
+          | none => .error "no LSC verdict"
+          | some lv =>
+            let t3 := t2.update id fun d => { d with active := d.active && !lv }
+            .ok { t3 with pc := finish q }
+
+def stepGen (t : T) (id : Id) (g : GenEnv) (lscEnv : Option Bool) : Except String T :=
+  match prepareGen t id with
+  | .error e => .error e
+  | .ok (q, done, pending, d, lc) =>
+    let parents := match pending.getLast? with | some p => p.inds | none => d.curPop
+    match evalReqs t id d.level true g.reqs with
+    | .error e => .error e
+    | .ok (t1, ev) =>
       let expected := if lc.engine == .cma then parents.length else lc.popSize
       match genOk t.cfg.maximize lc parents ev g.pop expected with
-      | .error e => throw s!"deme {showId id}: {e}"
-      | .ok _ => pure ()
-      let gen : Gen := ⟨g.pop, ev⟩
-      if lc.engine == .lhs || lc.engine == .sobol then
-        -- `run()` appends its population as a metaepoch of its own, then `gsc or lsc`
-        let t2 := appendHist t1 id [gen] true
-        let gv ← match gscEval t2 g.gscEnv t2.cfg.gsc with | some v => pure v | none => throw "no GSC verdict"
-        let d2 ← match t2.find id with | some d => pure d | none => throw "lost deme"
-        let lv ← if gv then pure false else match lscEval t2 d2 lscEnv lc.lsc with | some v => pure v | none => throw "no LSC verdict"
-        let t3 := t2.update id fun d => { d with active := !(gv || lv) }
-        pure { t3 with pc := finish q, gscSeen := t3.gscSeen || gv }
-      else
-        -- the running metaepoch's generations are appended to the history at its end
-        let gv ← match gscEval t1 g.gscEnv t1.cfg.gsc with | some v => pure v | none => throw "no GSC verdict"
-        let selfStop := lc.engine == .cma && g.cmaStop
-        if gv || selfStop then
-          let t2 := appendHist t1 id (pending ++ [gen]) false
-          pure { t2 with pc := finish q, gscSeen := t2.gscSeen || gv }
-        else if done + 1 < lc.generations then
-          pure { t1 with pc := .running q (some (id, done + 1, pending ++ [gen])) }
+      | .error e => .error s!"deme {showId id}: {e}"
+      | .ok _ => finishGen t1 id lc q done pending ⟨g.pop, ev⟩ g lscEnv
+
+def stepLocal (t : T) (id : Id) (reqs : List Req) (iterates : List Ind) (nfev : Nat) : Except String T :=
+  match t.pc with
+  | .running (qid :: q) none =>
+    if qid != id then .error s!"deme {showId id} runs, but {showId qid} is next in the schedule" else
+    match t.find id with
+    | none => .error s!"unknown deme {showId id}"
+    | some d =>
+      match t.cfg.levels[d.level]? with
+      | none => .error "no level"
+      | some lc =>
+        if lc.engine != .localOpt then .error "localRun of a non-local deme"
+        else if !d.active then .error s!"inactive deme {showId id} runs"
         else
-          let t2 := appendHist t1 id (pending ++ [gen]) true
-          let d2 ← match t2.find id with | some d => pure d | none => throw "lost deme"
-          let lv ← match lscEval t2 d2 lscEnv lc.lsc with | some v => pure v | none => throw "no LSC verdict"
-          let t3 := t2.update id fun d => { d with active := !lv }
-          pure { t3 with pc := finish q }
-    | _ => .error s!"deme {showId id} runs outside run_metaepoch"
-  | .localRun id reqs iterates nfev =>
-    match t.pc with
-    | .running (qid :: q) none => do
-      if qid != id then throw s!"deme {showId id} runs, but {showId qid} is next in the schedule"
-      let d ← match t.find id with | some d => pure d | none => throw s!"unknown deme {showId id}"
-      let lc ← match t.cfg.levels[d.level]? with | some lc => pure lc | none => throw "no level"
-      if lc.engine != .localOpt then throw "localRun of a non-local deme"
-      if !d.active then throw s!"inactive deme {showId id} runs"
-      let (t1, ev) ← evalReqs t id d.level false reqs
-      if nfev != reqs.length then throw s!"scipy reports nfev={nfev} but {reqs.length} evaluations were requested"
-      let refusedHere := ev.any fun e => e.genome.isEmpty && e.fit == Fit.sentinel t.cfg.maximize
-      if !(iterates.all fun i => ev.contains i || (refusedHere && i.fit == Fit.sentinel t.cfg.maximize)) then throw s!"local deme {showId id} recorded an iterate that was never evaluated with that value"
-      let t2 := t1.update id fun d => { d with counter := d.counter + nfev, hist := d.hist ++ [[⟨iterates, ev⟩]], active := false }
-      pure { t2 with pc := finish q }
-    | _ => .error s!"local deme {showId id} runs at the wrong moment"
-  | .round ge renv news =>
-    match t.pc with
-    | .post =>
-      match gscEval t ge t.cfg.gsc with
-      | none => .error "no verdict for the global stop condition"
-      | some true =>
-        if news.isEmpty then .ok { t with pc := .head, gscSeen := true }
-        else .error "a deme was sprouted although the global stop condition holds"
-      | some false =>
-        match Sprout.getSeeds (view t) renv t.cfg.mech with
-        | none => .error "sprout mechanism cannot be performed (missing environment / IndexError)"
-        | some seeds => do
-          -- candidates name their parent by rendered id; translate back to paths
-          let idOf := fun (s : String) => ((t.demes.find? fun d => showId d.id == s).map (·.id)).getD []
-          let flat := seeds.flatMap fun c => c.inds.map fun i => (idOf c.deme, i)
-          let t1 ← doSprout t flat news
-          pure { updateHibernation t1 (seeds.map fun c => idOf c.deme) with pc := .head }
-    | _ => .error "sprouting round at the wrong moment"
+          match evalReqs t id d.level false reqs with
+          | .error e => .error e
+          | .ok (t1, ev) =>
+            if nfev != reqs.length then .error s!"scipy reports nfev={nfev} but {reqs.length} evaluations were requested" else
+            let refusedHere := ev.any fun e => e.genome.isEmpty && e.fit == Fit.sentinel t.cfg.maximize
+            if !(iterates.all fun i => ev.contains i || (refusedHere && i.fit == Fit.sentinel t.cfg.maximize)) then
+              .error s!"local deme {showId id} recorded an iterate that was never evaluated with that value"
+            else
+              let t2 := t1.update id fun d => { d with counter := d.counter + nfev, hist := d.hist ++ [[⟨iterates, ev⟩]], active := false }
+              .ok { t2 with pc := finish q }
+  | _ => .error s!"local deme {showId id} runs at the wrong moment"
+
+def stepRound (t : T) (ge : Option Bool) (renv : Sprout.Env) (news : List NewEnv) : Except String T :=
+  match t.pc with
+  | .post =>
+    match gscEval t ge t.cfg.gsc with
+    | none => .error "no verdict for the global stop condition"
+    | some true =>
+      if news.isEmpty then .ok { t with pc := .head, gscSeen := true }
+      else .error "a deme was sprouted although the global stop condition holds"
+    | some false =>
+      if t.gscSeen then .error "the global stop condition was true and is false again" else
+      match Sprout.getSeeds (view t) renv t.cfg.mech with
+      | none => .error "sprout mechanism cannot be performed (missing environment / IndexError)"
+      | some seeds =>
+        let flat := seeds.flatMap fun c => c.inds.map fun i => (c.deme, i)
+        match doSprout t flat news with
+        | .error e => .error e
+        | .ok t1 => .ok { updateHibernation t1 (seeds.map (·.deme)) with pc := .head }
+  | _ => .error "sprouting round at the wrong moment"
+
+def step (t : T) : Ev → Except String T
+  | .loop ge => stepLoop t ge
+  | .gen id g lscEnv => stepGen t id g lscEnv
+  | .localRun id reqs iterates nfev => stepLocal t id reqs iterates nfev
+  | .round ge renv news => stepRound t ge renv news
 
 def exec (t : T) : List Ev → Except String T
   | [] => .ok t
